@@ -35,19 +35,22 @@ def log(*a):
 
 
 def run(cmd, cwd=None, timeout=None, env=None):
+    """Run a command in its own process group; on timeout the whole group (cargo, kani-driver,
+    cbmc, solvers) is killed."""
+    import signal
     t0 = time.time()
+    p = subprocess.Popen(cmd, cwd=cwd, env=env or ENV, stdout=subprocess.PIPE, stderr=subprocess.STDOUT,
+                         text=True, errors="replace", start_new_session=True)
     try:
-        p = subprocess.run(cmd, cwd=cwd, env=env or ENV, stdout=subprocess.PIPE,
-                           stderr=subprocess.STDOUT, timeout=timeout, text=True,
-                           errors="replace", start_new_session=True)
-        return p.returncode, p.stdout, time.time() - t0
-    except subprocess.TimeoutExpired as e:
-        out = e.stdout or ""
-        if isinstance(out, bytes):
-            out = out.decode(errors="replace")
-        # kill stray solver processes of this group
-        subprocess.run("pkill -9 -f 'scpi-verif/ws-' >/dev/null 2>&1 || true", shell=True)
-        return -9, out + "\n<<TIMEOUT>>", time.time() - t0
+        out, _ = p.communicate(timeout=timeout)
+        return p.returncode, out, time.time() - t0
+    except subprocess.TimeoutExpired:
+        try:
+            os.killpg(p.pid, signal.SIGKILL)
+        except ProcessLookupError:
+            pass
+        out, _ = p.communicate()
+        return -9, (out or "") + "\n<<TIMEOUT>>", time.time() - t0
 
 
 # ---------------------------------------------------------------------------------------
@@ -154,14 +157,44 @@ HARNESS_RE = re.compile(r"Checking harness ([\w:]+)\.\.\.")
 
 
 def parse_kani(out):
-    """Split terse output into per-harness records."""
+    """Split terse -j output into per-harness records.  Each worker prints
+    `Thread N: Checking harness X...` when it starts and `Thread N: <result block>` when done."""
     recs = {}
-    parts = HARNESS_RE.split(out)
-    # parts = [pre, name1, body1, name2, body2 ...]
-    for k in range(1, len(parts), 2):
-        name = "::".join(parts[k].split("::")[-2:])
-        body = parts[k + 1]
-        r = {"harness": name, "full": parts[k]}
+    cur = {}
+    blocks = []  # (harness full name, text)
+    tid = None
+    buf = []
+    for line in out.split("\n"):
+        m = re.match(r"^Thread (\d+): ?(.*)$", line)
+        if m or line.startswith(("Manual Harness Summary", "Complete - ")):
+            if tid is not None and buf and tid in cur:
+                blocks.append((cur[tid], "\n".join(buf)))
+            buf = []
+            tid = None
+            if m:
+                h = HARNESS_RE.search(m.group(2))
+                if h:
+                    cur[m.group(1)] = h.group(1)
+                else:
+                    tid = m.group(1)
+                    buf = [m.group(2)]
+            continue
+        m2 = HARNESS_RE.search(line)
+        if m2 and not line.startswith("Thread"):
+            # single-threaded output
+            if tid is not None and buf and tid in cur:
+                blocks.append((cur[tid], "\n".join(buf)))
+            cur["0"] = m2.group(1)
+            tid = "0"
+            buf = []
+            continue
+        if tid is not None:
+            buf.append(line)
+    if tid is not None and buf and tid in cur:
+        blocks.append((cur[tid], "\n".join(buf)))
+    for full, body in blocks:
+        name = "::".join(full.split("::")[-2:])
+        r = {"harness": name, "full": full}
         m = re.search(r"\*\* (\d+) of (\d+) failed", body)
         if m:
             r["failed"], r["checks"] = int(m.group(1)), int(m.group(2))
@@ -173,8 +206,9 @@ def parse_kani(out):
         m = re.search(r"Verification Time: ([\d.]+)s", body)
         r["time_s"] = float(m.group(1)) if m else None
         r["failed_checks"] = re.findall(r'Failed Checks: (.*?)\n\s*File: "([^"]*)", line (\d+)', body)
-        r["unsupported"] = "unsupported" in body.lower() and "UNDETERMINED" in body
         r["raw"] = body[-3000:]
+        if name in recs and recs[name].get("status") != "UNKNOWN":
+            continue
         recs[name] = r
     return recs
 
